@@ -280,7 +280,8 @@ func runCase(b *rt.Built, s *m.Service, meth *m.Method, c *caseRec) string {
 	}
 	// the view name accompanies the response
 	gv := http.Header(resp.Header).Get("goa-view")
-	if meth.ResultView == "" && gv != view {
+	if meth.ResultView == "" && gv != view && !(gv == "" && len(oracle.ResultViews(d, meth.Result)) <= 1) {
+		// (a result type with a single view has nothing to choose: the header is not sent)
 		return fmt.Sprintf("goa-view header is %q, the service chose view %q", gv, view)
 	}
 	if meth.ResultView != "" && gv != "" && gv != view {
